@@ -20,6 +20,7 @@ def run(ctx: Ctx) -> Report:
     rep = Report()
     ops.run_mc(ctx, rep)
     ops.run_c2s(ctx, rep, "C04", ctx.pick(12, 60), ctx.pick(40, 150), only=NOT_STATS)
+    ops.state_cover(ctx, rep, "C04", only=NOT_STATS)
     try:
         from . import real_policy
         rep.merge(real_policy.run_c04(ctx))
@@ -31,7 +32,7 @@ def run(ctx: Ctx) -> Report:
 
 
 def replay(ctx: Ctx, driver: str, case: dict) -> Report:
-    if driver == "onpolicy":
+    if driver in ("onpolicy", "onpolicy_cover"):
         return ops.replay(ctx, "C04", case, only=NOT_STATS)
     from . import real_policy
     return real_policy.replay(ctx, driver, case)
